@@ -217,9 +217,10 @@ INVARIANT Total
 INVARIANT Emit
 """
 PREFIXES = {
-    'quick': [('empty', '<- P_empty', 3), ('names', '<- P_names', 3), ('git', '<- P_git', 3), ('in-hunk', '<- P_in_hunk', 3)],
+    'quick': [('empty', '<- P_empty', 3), ('names', '<- P_names', 3), ('git', '<- P_git', 3), ('in-hunk', '<- P_in_hunk', 3),
+              ('after-create-hunk', '<- P_after_create', 3)],
     'thorough': [('empty', '<- P_empty', 4), ('names', '<- P_names', 4), ('git', '<- P_git', 4), ('git-index', '<- P_git_index', 3),
-                 ('in-hunk', '<- P_in_hunk', 4), ('after-hunk', '<- P_after_hunk', 3)],
+                 ('in-hunk', '<- P_in_hunk', 4), ('after-hunk', '<- P_after_hunk', 3), ('after-create-hunk', '<- P_after_create', 4)],
 }
 NUMS = [0, 1, 2, 10 ** 9, 2 ** 31, 2 ** 32, 2 ** 63 - 1, 2 ** 63, 2 ** 64 - 1, 2 ** 64, 10 ** 30]
 MEM_SLACK = 1 << 20
@@ -235,9 +236,9 @@ def run_total(jobs, res, strip=1):
         inp = ''.join('%d %s\n' % (i, b.hex()) for i, b in chunk)
         p = subprocess.run([RQH, 'parsetotal', str(strip)], input=inp, stdout=subprocess.PIPE, stderr=subprocess.PIPE, text=True)
         got = 0
-        for line in p.stdout.splitlines():
+        for line in p.stdout.split('\n'):
             f = line.split(' ', 4)
-            if len(f) >= 4:
+            if len(f) >= 4 and f[0].isdigit() and f[1] in ('ok', 'err', 'panic') and f[2].isdigit() and f[3].isdigit():
                 results[int(f[0])] = (f[1], int(f[2]), int(f[3]), f[4] if len(f) > 4 else '')
                 got += 1
         if p.returncode != 0 and got < len(chunk):
@@ -338,7 +339,15 @@ def check_c11(prop, tier):
                     'rendered': toks.render(c['toks'], seed(), c['trunc']).decode('latin-1')})
         # the whole tool: a sample of the inputs as patch files, and series files built from option tokens
         cli_jobs = []
-        pick = rnd.sample(range(len(jobs)), min(len(jobs), 500 if tier == 'quick' else 4000))
+        pick = rnd.sample(range(len(jobs)), min(len(jobs), 300 if tier == 'quick' else 4000))
+        # inputs the parser accepts reach the apply code: these are the ones that can crash the tool later on
+        accepted = [jid for (jid, data), (kind, ci, exp) in zip(jobs, meta) if kind == 'tokens' and results.get(jid, ('',))[0] == 'ok' and results[jid][1] >= 1]
+        seen_shapes, distinct = set(), []
+        for jid in accepted:
+            shape = tuple(t['k'] + str(t.get('oc', '')) + str(t.get('n', '')) for t in cases[meta[jid][1]]['toks'])
+            if shape not in seen_shapes:
+                seen_shapes.add(shape); distinct.append(jid)
+        pick += distinct if len(distinct) <= (2500 if tier == 'quick' else 20000) else rnd.sample(distinct, 2500 if tier == 'quick' else 20000)
         pick += list(range(nbase, min(len(jobs), nbase + 4 * len(NUMS) * 6)))[::3]
         for jid in pick:
             cli_jobs.append(('patch', jobs[jid][1], b'p.patch\n'))
